@@ -293,19 +293,26 @@ func (r *rw) rewriteSelectors(f *ast.File) {
 			}
 		case *ast.CompositeLit:
 			if se, ok := x.Type.(*ast.SelectorExpr); ok && r.pkgIs(se.X, "github.com/gorilla/websocket") && se.Sel.Name == "Dialer" {
-				has := false
+				has, sim := false, false
 				for _, el := range x.Elts {
 					if kv, ok := el.(*ast.KeyValueExpr); ok {
 						if id, ok := kv.Key.(*ast.Ident); ok && (id.Name == "NetDialContext" || id.Name == "NetDial") {
 							has = true
+							if se, ok := kv.Value.(*ast.SelectorExpr); ok {
+								if xi, ok := se.X.(*ast.Ident); ok && xi.Name == "simnet" {
+									sim = true
+								}
+							}
 						}
 					}
 				}
-				if has {
+				if has && !sim {
 					r.err = fmt.Errorf("websocket.Dialer literal already sets NetDial*")
 				}
-				x.Elts = append(x.Elts, &ast.KeyValueExpr{Key: ast.NewIdent("NetDialContext"), Value: &ast.SelectorExpr{X: ast.NewIdent("simnet"), Sel: ast.NewIdent("DialContext")}})
-				r.usesNet = true
+				if !has {
+					x.Elts = append(x.Elts, &ast.KeyValueExpr{Key: ast.NewIdent("NetDialContext"), Value: &ast.SelectorExpr{X: ast.NewIdent("simnet"), Sel: ast.NewIdent("DialContext")}})
+					r.usesNet = true
+				}
 			}
 		}
 		return true
